@@ -40,6 +40,8 @@ func checkC14(c *Check) {
 	ruleRawFlagPairing(c, p, "R14.7")
 	ruleInitWAfterDescriptor(c, p, "R14.16")
 	c.RuleDoc["R14.16"] = "the block pipeline is set up after the descriptor's block size is final"
+	ruleOptionWritesUnconditional(c, p, "R14.17", "Writer")
+	c.RuleDoc["R14.17"] = "an applied option writes what it configures on every successful path, whatever its argument"
 	ruleSizeTables(c, p, "R14.15")
 	c.RuleDoc["R14.15"] = "= R02.4: block-size code, pool and buffer size tables agree (a buffer returned to the pool of another size class makes the next frame's block size depend on what ran before)"
 	ruleBuffersRefetched(c, p, "R14.8", "Writer", "CompressingReader")
@@ -548,6 +550,8 @@ func checkC16(c *Check) {
 	ruleDictProvenance(c, p, "R16.2")
 	ruleWindowRetention(c, p, "R16.3")
 	ruleWindowNumeric(c, p, "R16.3", "")
+	ruleReaderDst(c, p, "R16.9")
+	c.RuleDoc["R16.9"] = "= R02.6: every block is decoded into the whole block buffer (or a caller buffer at least as large), whatever length the previous block left in the slice header (a dependent frame whose blocks grow would fail or be cut)"
 	ruleModeAfterInit(c, p, "R16.8")
 	c.RuleDoc["R16.8"] = "the sequential/concurrent decision of Read and WriteTo uses the mode as it is after Reader.init"
 	// the dictionary path of the block decoder: reads stay inside dict[0:len] and the
@@ -1208,7 +1212,7 @@ func checkC18(c *Check) {
 	c.RuleDoc["R18.13"] = "every failing Read ends the compressing reader (the deferred epilogue skips the transition only when err == nil)"
 	ruleNoDoubleRelease(c, p, "R18.14", "CompressingReader")
 	c.RuleDoc["R18.14"] = "= R08.16 for the compressing reader's input buffer"
-	ruleSizeOptionArms(c, p, "R18.12")
+	ruleSizeOptionArms(c, p, "R18.12", "CompressingReader")
 	c.RuleDoc["R18.12"] = "SizeOption sets flag and size unconditionally for the compressing reader as for the Writer"
 	ruleAdapterAccounting(c, p, "R18.11")
 	c.RuleDoc["R18.11"] = "byte accounting of the output adapter (bounds prover): Write adds exactly len(p) pending bytes, reset consumes exactly len(out) or none, clear leaves none; positions stay inside their slices"
@@ -1216,6 +1220,10 @@ func checkC18(c *Check) {
 	c.RuleDoc["R18.19"] = "= R02.8: the raw flag of a block is set or cleared on every path, to match the bytes stored (the compressing reader reuses one block object for the whole frame)"
 	ruleTrailerLayout(c, p, "R18.20")
 	c.RuleDoc["R18.20"] = "= R09.5: the trailer is the end mark followed by the checksum only when declared"
+	ruleCompressingReaderProgress(c, p, "R18.21")
+	c.RuleDoc["R18.21"] = "a Read of the compressing reader that returns without error has read the source or delivers bytes known to be pending"
+	ruleOptionWritesUnconditional(c, p, "R18.22", "CompressingReader")
+	c.RuleDoc["R18.22"] = "= R14.17: an applied option writes what it configures, and only on every successful path (ChecksumOption does not depend on, or touch conditionally, the block checksum flag)"
 	ruleCompressingReaderReset(c, p, "R18.17")
 	c.RuleDoc["R18.17"] = "CompressingReader.Reset re-arms frame, state and source on every path"
 	ruleApplyOnlyInitial(c, p, "R18.16")
@@ -1552,4 +1560,147 @@ func ruleCompressingReaderReset(c *Check, p *Program, rule string) {
 	})
 	c.Sites++
 	c.Cond(frame && state && src, rule, "CompressingReader.Reset#rearms", p.Pos(fn.Pos()), "Reset resets the frame (magic, header latch, block) and the reader's state on every path, whatever state it is called in, and installs the new source", "frame.Reset(), state = Initial, src = argument on all paths", fmt.Sprintf("frame.Reset on all paths: %v, state = Initial on all paths: %v, src stored: %v - a frame that skips the frame reset keeps the 'header already written' latch: the next frame has no magic and no descriptor", frame, state, src))
+}
+
+// R18.21 progress of the compressing reader: a Read that could not serve the caller from the overflow alone does
+// not come back with (n, nil) unless it has consulted the source in this call or is delivering bytes it has checked
+// to be there (the `dataPos > 0` test of the flushing state). A return path that does neither can hand back (0, nil)
+// for ever - a caller that loops until io.EOF never ends. Decided by a walk of the function's control flow from the
+// accepting edge of the overflow replay, carrying (an error is known to be pending, the source was read).
+func ruleCompressingReaderProgress(c *Check, p *Program, rule string) {
+	fn := findFn(c, p, rule, "", "CompressingReader.Read")
+	if fn == nil {
+		return
+	}
+	key := "CompressingReader.Read#progress"
+	desc := "after the overflow replay, every return without an error has read the source in this call, or delivers bytes known to be pending"
+	errCell, _ := resultCell(fn)
+	if errCell == nil {
+		c.Unknown(rule, key, p.Pos(fn.Pos()), desc, "the error result of Read is not a named result held in a cell (shape not recognised)")
+		return
+	}
+	readsSource := func(in ssa.Instruction) bool {
+		ci, ok := in.(ssa.CallInstruction)
+		if !ok {
+			return false
+		}
+		isSrcRead := func(x ssa.CallInstruction) bool {
+			if !(calleeIs(x, "io", "ReadFull") || calleeIs(x, "io", "ReadAtLeast")) && !(x.Common().IsInvoke() && x.Common().Method.Name() == "Read") {
+				return false
+			}
+			if x.Common().IsInvoke() {
+				return loadField(x.Common().Value) == "CompressingReader.src"
+			}
+			a := x.Common().Args[0]
+			if mi, isMI := a.(*ssa.ChangeInterface); isMI {
+				a = mi.X
+			}
+			return loadField(a) == "CompressingReader.src"
+		}
+		return isSrcRead(ci) || callReaches(ci, isSrcRead)
+	}
+	// start: the successor of the replay test on which reading continues
+	var starts []*ssa.BasicBlock
+	for _, ci := range callsIn(fn) {
+		f := staticCallee(ci)
+		if f == nil || recvTypeName(f) != "ovWriter" || f.Signature.Results().Len() != 1 {
+			continue
+		}
+		v := ci.Value()
+		if v == nil || v.Referrers() == nil {
+			continue
+		}
+		b := ci.Block()
+		if ifi, ok := b.Instrs[len(b.Instrs)-1].(*ssa.If); ok && len(b.Succs) == 2 {
+			at := atomOf(ifi.Cond, true)
+			if at.Kind == "call" && at.V == ssa.Value(v) {
+				// the edge on which the function does not return len(p) at once
+				for k, s := range b.Succs {
+					direct := false
+					for _, in := range s.Instrs {
+						if _, isR := in.(*ssa.Return); isR {
+							direct = true
+						}
+					}
+					_ = k
+					if !direct {
+						starts = append(starts, s)
+					}
+				}
+			}
+		}
+	}
+	if len(starts) == 0 {
+		c.Unknown(rule, key, p.Pos(fn.Pos()), desc, "the overflow replay test at the start of Read is not recognised")
+		return
+	}
+	type st struct {
+		b           *ssa.BasicBlock
+		pend, event bool
+	}
+	seen := map[st]bool{}
+	var bad []string
+	var walk func(s st)
+	walk = func(s st) {
+		if seen[s] {
+			return
+		}
+		seen[s] = true
+		pend, event := s.pend, s.event
+		for _, in := range s.b.Instrs {
+			if readsSource(in) {
+				event = true
+			}
+			if sto, ok := in.(*ssa.Store); ok && sto.Addr == ssa.Value(errCell) {
+				switch x := sto.Val.(type) {
+				case *ssa.Const:
+					pend = !x.IsNil()
+				case *ssa.MakeInterface:
+					pend = true
+				case *ssa.UnOp:
+					_, isG := x.X.(*ssa.Global)
+					pend = isG && x.Op == token.MUL
+				case *ssa.Call:
+					pend = calleeIs(x, "errors", "New") || calleeIs(x, "fmt", "Errorf")
+				default:
+					pend = false
+				}
+			}
+			if r, ok := in.(*ssa.Return); ok {
+				if !pend && !event {
+					bad = append(bad, p.InstrPos(r))
+				}
+				return
+			}
+		}
+		ifi, isIf := s.b.Instrs[len(s.b.Instrs)-1].(*ssa.If)
+		for k, nx := range s.b.Succs {
+			np, ne := pend, event
+			if isIf && len(s.b.Succs) == 2 {
+				at := atomOf(ifi.Cond, k == 0)
+				if at.Kind == "errnil" {
+					if ld, isL := at.V.(*ssa.UnOp); isL && ld.X == ssa.Value(errCell) {
+						np = !at.Val
+					}
+				}
+				// bytes known to be pending: dataPos > 0 (or != 0)
+				if bo, isB := ifi.Cond.(*ssa.BinOp); isB && loadField(bo.X) == "ovWriter.dataPos" {
+					if k0, isK := constUint(bo.Y); isK && k0 == 0 {
+						if (bo.Op == token.GTR || bo.Op == token.NEQ) && k == 0 {
+							ne = true
+						}
+						if (bo.Op == token.EQL || bo.Op == token.LEQ) && k == 1 {
+							ne = true
+						}
+					}
+				}
+			}
+			walk(st{nx, np, ne})
+		}
+	}
+	for _, b := range starts {
+		walk(st{b, false, false})
+	}
+	c.Sites++
+	c.Cond(len(bad) == 0, rule, key, p.Pos(fn.Pos()), desc, fmt.Sprintf("%d (block, pending, read) states walked", len(seen)), "return(s) at "+strings.Join(bad, ", ")+" reachable with no error pending, without a read of the source and without a test that bytes are pending: Read can return (0, nil) on every call and a caller reading until io.EOF never terminates")
 }
